@@ -1216,7 +1216,7 @@ def parse_cookie(
         cookie = header
 
     if cookie:
-        cookie = cookie.encode("latin1").decode()
+        cookie = cookie.encode("latin1").decode(errors="replace")
 
     return _sansio_http.parse_cookie(cookie=cookie, cls=cls)
 
